@@ -45,6 +45,10 @@ pub fn lookup(prop: &str, key: &str) -> Option<String> {
         .map(|f| f.id.clone())
 }
 
+pub fn property_of(id: &str) -> Option<String> {
+    FINDINGS.get()?.iter().find(|f| f.id == id).map(|f| f.property.clone())
+}
+
 pub fn describe(id: &str) -> String {
     match FINDINGS.get().and_then(|v| v.iter().find(|f| f.id == id)) {
         Some(f) => format!("{} [{}] {}", f.id, f.key, f.summary),
